@@ -1448,6 +1448,12 @@ func vRunC03Case(out *vOut, r *vRand, id int, stats map[string]int) {
 				}
 			}
 		default:
+			// one time in three the log is read-only while it is cleaned and the readers go on: a reader whose
+			// segment is replaced or deleted then is created again, it has not reached the read-only end
+			ro := (compact || retention) && r.intn(3) == 0
+			if ro {
+				c.doReadonly(true)
+			}
 			if compact {
 				c.layout()
 				c.doCompactKeepingReaders()
@@ -1464,6 +1470,15 @@ func vRunC03Case(out *vOut, r *vRand, id int, stats map[string]int) {
 					c.doHW(od)
 				}
 				stats["c03/retention-with-live-readers"]++
+			}
+			if ro {
+				if !c.viol {
+					for _, lr := range c.liveReaders() {
+						c.doReaderNext(lr)
+					}
+				}
+				c.doReadonly(false)
+				stats["c03/clean-while-readonly"]++
 			}
 		}
 		c.state()
